@@ -22,6 +22,7 @@ from . import findings as F
 
 MAX_VIOL_PER_SHARD = 40
 MAX_OUTCOMES = 200000
+STALL_TIMEOUT = 1800.0       # seconds without any shard result before the run is declared stalled
 RECORD = bool(os.environ.get("VMC_RECORD_TABLES"))
 
 
@@ -192,13 +193,41 @@ def run_clauses(prop, clauses, seed=0, workers=None, selftest=True, fresh=False)
     ctxm = mp.get_context("fork")
     results = []
     broken = []
+    stall = float(os.environ.get("VMC_STALL_TIMEOUT", "0")) or STALL_TIMEOUT
     if workers <= 1 or len(order) <= 1:
         for t in order:
             results.append(_work(t))
     else:
-        with ctxm.Pool(workers, maxtasksperchild=1 if fresh else None) as pool:
-            for d in pool.imap_unordered(_work, order, chunksize=1):
+        # A worker that dies (killed, out of memory, interpreter crash) never returns its shard and a
+        # multiprocessing pool then waits for ever; a shard caught in an endless loop does the same.
+        # If no shard result arrives for ``stall`` seconds the outstanding shards are reported as
+        # violations (site 'stalled') and the pool is torn down.
+        pool = ctxm.Pool(workers, maxtasksperchild=1 if fresh else None)
+        pending = set(order)
+        try:
+            it = pool.imap_unordered(_work, order, chunksize=1)
+            while pending:
+                try:
+                    d = it.next(timeout=stall)
+                except mp.TimeoutError:
+                    break
+                except StopIteration:
+                    break
                 results.append(d)
+                pending.discard(tuple(d["task"]))
+        finally:
+            pool.terminate()
+            pool.join()
+        for (ci, si) in sorted(pending):
+            ctx = Ctx(prop, clauses[ci].name, _KNOWN)
+            ctx.viol({"shard": si, "of": len(clauses[ci].shards)},
+                     "shard %d of clause %s returned no result within %.0f s (worker died or the shard does not "
+                     "terminate)" % (si, clauses[ci].name, stall), site="stalled")
+            d = ctx.dump()
+            d["task"] = (ci, si)
+            d["error"] = None
+            d["wall"] = stall
+            results.append(d)
     # determinism self-test: first task of each clause is re-run in a fresh
     # single-use process; its observation digest must be identical.
     if selftest:
@@ -209,8 +238,11 @@ def run_clauses(prop, clauses, seed=0, workers=None, selftest=True, fresh=False)
                 firsts[ci] = d
         if firsts:
             with ctxm.Pool(min(workers, len(firsts)), maxtasksperchild=1) as pool:
-                again = pool.map(_work, [(ci, 0) for ci in sorted(firsts)],
-                                 chunksize=1)
+                try:
+                    again = pool.map_async(_work, [(ci, 0) for ci in sorted(firsts)], chunksize=1).get(timeout=stall)
+                except mp.TimeoutError:
+                    again = []
+                    broken.append("determinism self-test did not finish within %.0f s" % stall)
             for d2 in again:
                 d1 = firsts[d2["task"][0]]
                 if _digest_of(d1) != _digest_of(d2):
@@ -226,8 +258,13 @@ def run_clauses(prop, clauses, seed=0, workers=None, selftest=True, fresh=False)
     for d in sorted(results, key=lambda d: d["task"]):
         m = merged[d["clause"]]
         if d["error"]:
-            broken.append("clause %s shard %d crashed:\n%s"
-                          % (d["clause"], d["task"][1], d["error"]))
+            # an exception escaping a shard: on the unchanged tree this cannot happen (the check would be
+            # broken); on a changed tree the library has handed the harness something it cannot digest
+            m["nviol"] += 1
+            m["viols"].append({"clause": d["clause"], "site": "shard_exception",
+                               "case": {"shard": d["task"][1]},
+                               "detail": "shard %d raised:\n%s" % (d["task"][1], d["error"][-1500:]), "dev": None})
+            m["extra"]["violations_at:shard_exception"] = m["extra"].get("violations_at:shard_exception", 0) + 1
         m["evals"] += d["evals"]
         m["nt"] += d["nt_count"]
         m["nt_keys"] |= d["nt_keys"]
